@@ -9,19 +9,19 @@ import numpy as np
 from harness.common import *
 import vlib
 
-LEVEL_TEXT = ('Lean 4 theorem, for all input fields/offsets, sampling ratios, integer splits of the tilt shift, output extents (whole '
-              'array or mask box) and propagation shapes: each output field of propagate_dft equals, at every global output '
-              'coordinate inside out_extent ∩ prop_extent, the unitary dft2 sum evaluated at that coordinate relative to the '
-              'shifted centre, and is exactly zero elsewhere; Wavefront.field[i][j] is the sum of these over the input fields '
-              '(insert proved on the generated index kernel); shape/prop_shape/mask only select samples; mask box = bounding '
-              'rows/cols re-centred at floor(S/2). The window arithmetic is regenerated from propagate.py/extent.py on every run; '
-              'alpha, the dft2 call and Wavefront.field are a hand model checked against the implementation. Partial: see note.')
-LEVEL_NOTE = ('Partial: the statement is about the dft2 model (its reduction to the defining double sum is C01 dft2_eq_defining_sum); '
-              'the per-axis alpha formula, metadata (wavelength, focal length, du/oversample, ptype) and np.fix are carried by the '
-              'correspondence and the oracle, not by a theorem. '
-              'Trusted: Lean kernel, py2lean subset semantics, NumPy dot/exp/broadcast as modelled, generator coverage.')
+LEVEL_TEXT = ('Lean 4 theorems, for all input fields/offsets, samplings, integer splits of the tilt shift, output extents (whole array or '
+              'mask box), propagation shapes and oversampling factors: Wavefront.field[i][j] of the propagated wavefront equals the sum over '
+              'the input fields whose window out_extent ∩ prop_extent contains the sample of sqrt|ar ac| Σ f(x,y) exp(-2πi(ar X (g-s) + ac Y (g-s))) '
+              '(stated at C/R by composing with C01 dft2_eq_defining_sum) with alpha = dx·du/(λ z os) per axis, and exactly zero elsewhere; '
+              'shape/prop_shape/mask only select samples; oversampling only divides alpha and multiplies the grid; wavelength, focal length, '
+              'du/oversample and the flipped plane type are carried. Window arithmetic, _dft_alpha, its call site, shape·oversample and the '
+              'metadata hand-over are regenerated from propagate.py/extent.py/field.py on every run; the dft2 call and np.fix are a hand '
+              'model checked against the implementation (the code\'s own fix/sub split is observed, not recomputed).')
+LEVEL_NOTE = ('Partial: per-field sums are not merged into one sum over the input-plane array when fields carry different shifts (for a '
+              'common shift the oracle checks it); lentil.boundary (mask bounding box) enters as a parameter (differential only). '
+              'Trusted: Lean kernel, py2lean subset semantics, NumPy dot/exp/broadcast/fix as modelled, generator coverage.')
 TECHNIQUE = 'Lean 4 proof (omega + ring) over translator-regenerated window kernel + Float model with differential correspondence'
-GEN = ['Extent', 'FieldIdx', 'Window']
+GEN = ['Extent', 'FieldIdx', 'Window', 'PropagateMeta', 'PlaneType']
 OPS = ['C02']
 RULE = ('cases: pupils 1..6 x 1..6 (even/odd/non-square, off-centre support, 1..3 segments) with dyadic amplitude and OPD, '
         'alpha per axis in [0.02,0.35] (scalar or per-axis dx/du), oversample 1..3, output shape None/int/pair, prop_shape <= shape, '
@@ -30,8 +30,8 @@ RULE = ('cases: pupils 1..6 x 1..6 (even/odd/non-square, off-centre support, 1..
         'shape, prop_shape, mask box, tilt class); non-trivial = window clipped / mask / tilt / per-axis sampling / offset field')
 TRUSTED = ['np.dot(E1.dot(f), E2), np.exp, np.outer, np.fix, np.broadcast_to as modelled in Model/Fourier.lean and Model/Propagate.lean',
            'lentil.fourier.dft2 = Model dft2 (checked by C01); lentil.field.insert = Model insertArr (checked by C06)']
-UNPROVEN = ['reduction of the dft2 model to the defining Fraunhofer double sum (C01 dft2_eq_defining_sum, to be composed)',
-            'alpha = dx*du/(wavelength*z*oversample) per axis and the metadata record: correspondence + oracle only']
+UNPROVEN = ['lentil.boundary(mask) = bounding rows/cols of the support: parameter of the theorems, differential only',
+            'merging the per-field Fraunhofer sums into the sum over Wavefront.field of the input (C01 dft2_subarray_offset/dft2_add): oracle-checked']
 ASSUMPTIONS = ['shape >= 1, prop_shape >= 1, non-empty mask; the shift split fix+sub is arbitrary in the theorem (np.fix in the code)',
                'generated tilt shifts keep a fractional part in [0.05,0.95] so that np.fix is insensitive to rounding']
 
@@ -63,8 +63,12 @@ def _pupil(rng, kmax=6):
     return {'shape': [int(m), int(n)], 'amp': [float(x) for x in amp.ravel()], 'opd': [float(x) for x in opd.ravel()],
             'seg': None if seg is None else [int(x) for x in seg.ravel()]}
 
-def _stage(rng, in_shape, dx, tier, allow_tilt=True):
+def _wz(c):
+    return c.get('wl', WL), c.get('z', Z)
+
+def _stage(rng, in_shape, dx, tier, allow_tilt=True, wl=WL, z=Z):
     """parameters of one propagate_dft call given the input wavefront's shape and pixelscale"""
+    WL, Z = wl, z
     os_ = int(rng.integers(1, 4))
     big = 14 if tier != 'thorough' else 20
     t = rng.integers(0, 5)
@@ -96,7 +100,11 @@ def _stage(rng, in_shape, dx, tier, allow_tilt=True):
             if k == 2 and (r1 - r0) * (c1 - c0) > 1:   # holes
                 holes = rng.integers(0, 2, mk.shape); mk = mk * holes
                 mk[r0, c0] = 1; mk[r1, c1] = 1
-        mask = {'shape': [int(S[0]), int(S[1])], 'bits': [int(x) for x in mk.ravel()]}
+        # support values: 0/1 ints, booleans, or positive floats of any size (the bounding box is that of the support)
+        kind = ['int', 'bool', 'float'][int(rng.integers(0, 3))]
+        bits = [int(x) for x in mk.ravel()]
+        if kind == 'float': bits = [float(b) * float(rng.choice([0.25, 1.0, 3.0])) for b in bits]
+        mask = {'shape': [int(S[0]), int(S[1])], 'bits': bits, 'dtype': kind}
     tilts = []
     if allow_tilt and rng.integers(0, 3) == 0:
         for _ in range(int(rng.integers(1, 3))):
@@ -105,7 +113,7 @@ def _stage(rng, in_shape, dx, tier, allow_tilt=True):
             rng_px = [0.9, 3.0, max(S) * 0.75, max(S) * 1.5][k]
             px = [float(rng.uniform(-rng_px, rng_px)), float(rng.uniform(-rng_px, rng_px))]
             tilts.append(px)
-    return {'os': os_, 'shape': shape, 'prop_shape': prop_shape, 'du': du, 'scalar_du': scalar_du, 'mask': mask, 'tilt_px': tilts}
+    return {'os': os_, 'shape': shape, 'prop_shape': prop_shape, 'du': du, 'scalar_du': scalar_du, 'mask': mask, 'tilt_px': tilts, 'z': Z}
 
 def _fix_tilts(stage):
     """make the total tilt shift (in px) keep a fractional part in [0.05, 0.95]; convert px -> angles.
@@ -116,7 +124,8 @@ def _fix_tilts(stage):
         if stage['tilt_px'] and (fr < 0.05 or fr > 0.95):
             stage['tilt_px'][0][a] += 0.3
     du, os_ = stage['du'], stage['os']
-    stage['tilt'] = [[t[0] * du[0] / (Z * os_), -t[1] * du[1] / (Z * os_)] for t in stage['tilt_px']]
+    Zs = stage.get('z', Z)
+    stage['tilt'] = [[t[0] * du[0] / (Zs * os_), -t[1] * du[1] / (Zs * os_)] for t in stage['tilt_px']]
 
 def generate(rng, tier):
     n = {'quick': 240, 'thorough': 3000, 'search': 400}[tier]
@@ -125,9 +134,23 @@ def generate(rng, tier):
         p = _pupil(rng, 6 if tier != 'thorough' else 8)
         if rng.integers(0, 2): dx = [1 / 64, 1 / 64]; scalar_dx = True
         else: dx = [float(rng.choice([1 / 64, 1 / 32, 3 / 128])), float(rng.choice([1 / 64, 1 / 32, 3 / 128]))]; scalar_dx = dx[0] == dx[1]
-        st = _stage(rng, p['shape'], dx, tier)
+        wl = float(rng.choice([5e-7, 4.25e-7, 6.5e-7, 1.1e-6])); z = float(rng.choice([8.0, 2.5, 20.0, 0.75]))
+        st = _stage(rng, p['shape'], dx, tier, wl=wl, z=z)
         _fix_tilts(st)
-        c = {'kind': 'dft', 'pupil': p, 'dx': dx, 'scalar_dx': bool(scalar_dx), 'stages': [st]}
+        c = {'kind': 'dft', 'pupil': p, 'dx': dx, 'scalar_dx': bool(scalar_dx), 'wl': wl, 'z': z, 'stages': [st]}
+        if p['seg'] is not None and rng.integers(0, 2):
+            # per-segment tilts: ramps in the OPD of each segment, extracted by fit_tilt -> fields with different shifts
+            S = _sh2(st, p['shape']); S = [S[0] * st['os'], S[1] * st['os']]
+            m, n = p['shape']
+            lab = np.array(p['seg']).reshape(m, n)
+            r = np.arange(m)[:, None] - m // 2; cc = np.arange(n)[None, :] - n // 2
+            opd = np.array(p['opd']).reshape(m, n)
+            for k in range(1, int(lab.max()) + 1):
+                px = [float(rng.uniform(-0.45, 0.45) * S[0]), float(rng.uniform(-0.45, 0.45) * S[1])]
+                thx, thy = px[0] * st['du'][0] / (z * st['os']), -px[1] * st['du'][1] / (z * st['os'])
+                opd = opd + (lab == k) * (thx * r * dx[0] - thy * cc * dx[1])
+            p['opd'] = [float(x) for x in opd.ravel()]
+            c['fit_tilt'] = True
         if k % 5 == 4:
             # image -> pupil: propagate the image-plane wavefront of stage 0 again
             st0 = c['stages'][0]
@@ -136,7 +159,7 @@ def generate(rng, tier):
             in_shape = [sh[0] * st0['os'], sh[1] * st0['os']]
             if max(in_shape) <= 10:
                 dx1 = [st0['du'][0] / st0['os'], st0['du'][1] / st0['os']]
-                st1 = _stage(rng, in_shape, dx1, tier, allow_tilt=False)
+                st1 = _stage(rng, in_shape, dx1, tier, allow_tilt=False, wl=wl, z=z)
                 if st1['shape'] is None and max(in_shape) * st1['os'] > 14: st1['shape'] = [5, 6]; st1['mask'] = None; st1['prop_shape'] = None
                 _fix_tilts(st1)
                 c['stages'].append(st1)
@@ -159,8 +182,10 @@ def _build(c):
         seg = np.array(p['seg']).reshape(m, n)
         mask = np.array([(seg == k).astype(int) for k in range(1, seg.max() + 1)])
     dx = c['dx'][0] if c['scalar_dx'] else tuple(c['dx'])
-    pupil = lentil.Pupil(amplitude=amp, opd=opd, mask=mask, pixelscale=dx, focal_length=Z)
-    w = lentil.Wavefront(wavelength=WL) * pupil
+    wl, z = _wz(c)
+    pupil = lentil.Pupil(amplitude=amp, opd=opd, mask=mask, pixelscale=dx, focal_length=z)
+    if c.get('fit_tilt'): pupil = pupil.fit_tilt()
+    w = lentil.Wavefront(wavelength=wl) * pupil
     return w
 
 def _apply_tilts(w, stage):
@@ -173,7 +198,9 @@ def _call(w, stage):
     import lentil
     du = stage['du'][0] if stage['scalar_du'] else tuple(stage['du'])
     mask = None
-    if stage['mask'] is not None: mask = np.array(stage['mask']['bits']).reshape(stage['mask']['shape'])
+    if stage['mask'] is not None:
+        mask = np.array(stage['mask']['bits']).reshape(stage['mask']['shape'])
+        if stage['mask'].get('dtype') == 'bool': mask = mask.astype(bool)
     shape = stage['shape'] if not isinstance(stage['shape'], list) else tuple(stage['shape'])
     ps = stage['prop_shape'] if not isinstance(stage['prop_shape'], list) else tuple(stage['prop_shape'])
     return lentil.propagate_dft(w, pixelscale=du, shape=shape, prop_shape=ps, oversample=stage['os'], mask=mask)
@@ -181,6 +208,27 @@ def _call(w, stage):
 def _cx(a):
     a = np.asarray(a, dtype=complex)
     return {'shape': list(a.shape), 're': [float(x) for x in a.real.ravel()], 'im': [float(x) for x in a.imag.ravel()]}
+
+class _Observe:
+    """observe, during one propagate_dft call, the integer part of the shift the code chose for each field (second argument
+    of `array_extent(prop_shape_out, fix_shift)`) and the arguments of each `lentil.fourier.dft2` call"""
+    def __enter__(self):
+        import lentil, lentil.extent, lentil.fourier
+        self.fix, self.dft = [], {}
+        self._ae, self._d2 = lentil.extent.array_extent, lentil.fourier.dft2
+        def ae(*a, **k):
+            if len(a) == 2 and isinstance(a[1], np.ndarray) and not k: self.fix.append([float(a[1][0]), float(a[1][1])])
+            return self._ae(*a, **k)
+        def d2(*a, **k):
+            if 'shift' in k and self.fix:
+                self.dft[len(self.fix) - 1] = {'shift': [float(k['shift'][0]), float(k['shift'][1])], 'shape': [int(x) for x in k.get('shape', (0, 0))],
+                                               'offset': [int(x) for x in k.get('offset', (0, 0))]}
+            return self._d2(*a, **k)
+        lentil.extent.array_extent = ae; lentil.fourier.dft2 = d2
+        return self
+    def __exit__(self, *exc):
+        import lentil.extent, lentil.fourier
+        lentil.extent.array_extent = self._ae; lentil.fourier.dft2 = self._d2
 
 def impl(c):
     vlib.import_lentil()
@@ -194,26 +242,44 @@ def impl(c):
     in_fields = []
     for f in w.data:
         s = f.shift(z=w.focal_length, wavelength=w.wavelength, pixelscale=du, oversample=st['os'], indexing='ij')
-        fx = np.fix(s); sb = np.asarray(s) - fx
-        d = _cx(f.data); d.update({'off': [int(f.offset[0]), int(f.offset[1])], 'fix': [int(fx[0]), int(fx[1])],
-                                   'sub': [float(sb[0]), float(sb[1])]})
+        d = _cx(f.data); d.update({'off': [int(f.offset[0]), int(f.offset[1])], 'shift': [float(s[0]), float(s[1])],
+                                   # angles of the Tilt elements this field carries: Tilt(x, y) stores self.x = y, self.y = x
+                                   'angles': [[float(t.y), float(t.x)] for t in f.tilt]})
         in_fields.append(d)
     inp = {'fields': in_fields, 'canvas': _cx(w.field), 'shape': [int(x) for x in w.shape],
            'pixelscale': [float(x) for x in w.pixelscale], 'wavelength': float(w.wavelength), 'focal_length': float(w.focal_length),
            'ptype': str(w.ptype)}
     try:
-        o = _call(w, st)
+        with _Observe() as ob:
+            o = _call(w, st)
     except Exception as e:
         return {'in': inp, 'exc': type(e).__name__, 'msg': str(e)[:200]}
-    return {'in': inp,
-            'out_fields': [{'shape': list(f.data.shape), 'off': [int(f.offset[0]), int(f.offset[1])]} for f in o.data],
+    # the code's own split of each field's shift: fix from the propagation extent it built, sub from the dft2 call
+    observed = len(ob.fix) == len(in_fields)
+    k_out = 0
+    for k, f in enumerate(in_fields):
+        if observed and all(v == int(v) for v in ob.fix[k]):
+            f['fix'] = [int(ob.fix[k][0]), int(ob.fix[k][1])]
+            if k in ob.dft and k_out < len(o.data):
+                off = o.data[k_out].offset; k_out += 1
+                # shift argument = (fix - intersect_shift) + sub
+                f['sub'] = [ob.dft[k]['shift'][a] - (f['fix'][a] - int(off[a])) for a in (0, 1)]
+                f['dft_offset'] = ob.dft[k]['offset']
+            else:
+                f['sub'] = [f['shift'][a] - f['fix'][a] for a in (0, 1)]
+        else:
+            observed = False
+            fx = np.fix(f['shift']); f['fix'] = [int(fx[0]), int(fx[1])]; f['sub'] = [f['shift'][a] - f['fix'][a] for a in (0, 1)]
+    return {'in': inp, 'observed_split': observed,
+            'out_fields': [{'shape': list(f.data.shape), 'off': [int(f.offset[0]), int(f.offset[1])],
+                            'pixelscale': [float(x) for x in np.broadcast_to(f.pixelscale, (2,))]} for f in o.data],
             'out': _cx(o.field), 'wavelength': float(o.wavelength), 'focal_length': float(o.focal_length),
             'pixelscale': [float(x) for x in o.pixelscale], 'ptype': str(o.ptype), 'shape': [int(x) for x in o.shape]}
 
 def _mask_box(stage):
     if stage['mask'] is None: return None
     mk = np.array(stage['mask']['bits']).reshape(stage['mask']['shape'])
-    rows = np.where(mk.any(axis=1))[0]; cols = np.where(mk.any(axis=0))[0]
+    rows = np.where((mk > 0).any(axis=1))[0]; cols = np.where((mk > 0).any(axis=0))[0]
     return [int(rows[0]), int(rows[-1]), int(cols[0]), int(cols[-1])]
 
 def _bits_field(f):
@@ -238,9 +304,6 @@ def compare(c, io, mo):
     m = mo[0]
     if 'exc' in io: return f"implementation raised {io['exc']}: {io.get('msg')} (model has no refusal here)"
     if not m.get('ok'): return f"model refused: {m.get('err')}"
-    a = [(f['shape'], f['off']) for f in io['out_fields']]
-    b = [(f['shape'], f['off']) for f in m['fields']]
-    if a != b: return f'output fields (shape, offset): impl {a} model {b}'
     got = (np.array(io['out']['re']) + 1j * np.array(io['out']['im'])).reshape(io['out']['shape'])
     want = _arr(m['canvas'])
     if got.shape != want.shape: return f'Wavefront.field shape {got.shape} vs model {want.shape}'
@@ -254,6 +317,16 @@ def compare(c, io, mo):
         c0 = max(0, e[2] + got.shape[1] // 2); c1 = min(got.shape[1] - 1, e[3] + got.shape[1] // 2)
         if r0 <= r1 and c0 <= c1: cover[r0:r1 + 1, c0:c1 + 1] = True
     if np.any(got[~cover] != 0): return 'Wavefront.field is non-zero outside every output field of the model'
+    # evaluated region as an observable (not the list of (shape, offset)): union of the output fields' extents on the canvas
+    cov_i = np.zeros(got.shape, bool)
+    for f in io['out_fields']:
+        e = ext_of(f['shape'], f['off'])
+        r0 = max(0, e[0] + got.shape[0] // 2); r1 = min(got.shape[0] - 1, e[1] + got.shape[0] // 2)
+        c0 = max(0, e[2] + got.shape[1] // 2); c1 = min(got.shape[1] - 1, e[3] + got.shape[1] // 2)
+        if r0 <= r1 and c0 <= c1: cov_i[r0:r1 + 1, c0:c1 + 1] = True
+    if not np.array_equal(cov_i, cover): return f'evaluated region of the output differs from the model ({int(cov_i.sum())} vs {int(cover.sum())} samples)'
+    for key in ('wavelength', 'focal_length'):
+        if key in m and abs(io[key] - vlib.bitsf(m[key])) > 1e-15 * abs(io[key]): return f"output {key}: impl {io[key]!r} model {vlib.bitsf(m[key])!r}"
     ps = vlib.unfl(m['pixelscale'])
     if any(abs(x - y) > 1e-12 * abs(y) for x, y in zip(io['pixelscale'], ps)): return f"output pixelscale {io['pixelscale']} vs model {ps}"
     return None
@@ -286,36 +359,60 @@ def oracle(c, io):
     want_ps = [st['du'][0] / os_, st['du'][1] / os_]
     if any(abs(a - b) > 1e-12 * b for a, b in zip(io['pixelscale'], want_ps)): return f"output sampling {io['pixelscale']} != du/oversample {want_ps}"
     if io['ptype'] == inp['ptype'] or io['ptype'] not in ('pupil', 'image'): return f"plane type {inp['ptype']} -> {io['ptype']}"
+    for f in io['out_fields']:
+        if any(abs(x - y) > 1e-12 * y for x, y in zip(f['pixelscale'], want_ps)): return f"output Field.pixelscale {f['pixelscale']} != du/oversample {want_ps}"
     dx = inp['pixelscale']
-    ar = dx[0] * st['du'][0] / (inp['wavelength'] * inp['focal_length'] * os_)
-    ac = dx[1] * st['du'][1] / (inp['wavelength'] * inp['focal_length'] * os_)
-    # shift of the image in output samples (all fields carry the same Tilt planes here)
-    sr = sum(Z * th[0] / st['du'][0] * os_ for th in st.get('tilt', []))
-    sc = sum(-Z * th[1] / st['du'][1] * os_ for th in st.get('tilt', []))
-    fr, fc = int(np.fix(sr)), int(np.fix(sc))
+    z = inp['focal_length']
+    ar = dx[0] * st['du'][0] / (inp['wavelength'] * z * os_)
+    ac = dx[1] * st['du'][1] / (inp['wavelength'] * z * os_)
     rows = np.arange(S[0]); cols = np.arange(S[1])
-    in_r = np.ones(S[0], bool); in_c = np.ones(S[1], bool)
+    out_r = np.ones(S[0], bool); out_c = np.ones(S[1], bool)
     box = _mask_box(st)
     if box is not None:
-        in_r &= (rows >= box[0]) & (rows <= box[1]); in_c &= (cols >= box[2]) & (cols <= box[3])
+        out_r &= (rows >= box[0]) & (rows <= box[1]); out_c &= (cols >= box[2]) & (cols <= box[3])
     gr = rows - S[0] // 2; gc = cols - S[1] // 2
-    # propagation window: P samples whose centre sample floor(P/2) sits at global coordinate fix
-    in_r &= (gr >= fr - P[0] // 2) & (gr <= fr - P[0] // 2 + P[0] - 1)
-    in_c &= (gc >= fc - P[1] // 2) & (gc <= fc - P[1] // 2 + P[1] - 1)
-    canvas = (np.array(inp['canvas']['re']) + 1j * np.array(inp['canvas']['im'])).reshape(inp['canvas']['shape'])
-    F = fraunhofer(canvas, ar, ac, gr - np.longdouble(sr), gc - np.longdouble(sc))
-    win = np.outer(in_r, in_c)
     got = (np.array(io['out']['re']) + 1j * np.array(io['out']['im'])).reshape(io['out']['shape'])
     if got.shape != tuple(S): return f'Wavefront.field has shape {got.shape}, expected {S}'
-    if np.any(got[~win] != 0):
-        i, j = np.argwhere((got != 0) & ~win)[0]
+    want = np.zeros(S, dtype=np.clongdouble); win_any = np.zeros(S, bool)
+    for f in inp['fields']:
+        # image displacement of this field in output samples, from the angles of the Tilt elements it carries:
+        # rows +z*thx/du0*os, columns -z*thy/du1*os
+        sr = sum(z * th[0] / st['du'][0] * os_ for th in f['angles'])
+        sc = sum(-z * th[1] / st['du'][1] * os_ for th in f['angles'])
+        fr, fc = f['fix']          # the integer part the code chose (observed); any split within one sample is legitimate
+        if abs(fr - sr) > 1 + 1e-9 or abs(fc - sc) > 1 + 1e-9:
+            return f"field shifted by ({sr:.4f},{sc:.4f}) samples but its propagation window is centred at ({fr},{fc})"
+        # propagation window: P samples whose centre sample floor(P/2) sits at global coordinate fix
+        in_r = out_r & (gr >= fr - P[0] // 2) & (gr <= fr - P[0] // 2 + P[0] - 1)
+        in_c = out_c & (gc >= fc - P[1] // 2) & (gc <= fc - P[1] // 2 + P[1] - 1)
+        win = np.outer(in_r, in_c)
+        d = (np.array(f['re']) + 1j * np.array(f['im'])).reshape(f['shape'])
+        e = ext_of(f['shape'], f['off'])
+        cv = np.zeros((e[1] - e[0] + 1, e[3] - e[2] + 1), dtype=complex); cv[:, :] = d
+        # the field on its own canvas: coordinates e[0].. ; use fraunhofer() with explicit coordinates
+        L = np.longdouble
+        x = np.arange(e[0], e[1] + 1).astype(L); y = np.arange(e[2], e[3] + 1).astype(L)
+        twopi = L(2) * np.arccos(L(-1))
+        pr = twopi * L(ar) * np.outer((gr - L(sr)).astype(L), x); pc = twopi * L(ac) * np.outer(y, (gc - L(sc)).astype(L))
+        F = ((np.cos(pr) - 1j * np.sin(pr)) @ cv.astype(np.clongdouble) @ (np.cos(pc) - 1j * np.sin(pc))) * np.sqrt(abs(L(ar) * L(ac)))
+        want += np.where(win, F, 0); win_any |= win
+    if np.any(got[~win_any] != 0):
+        i, j = np.argwhere((got != 0) & ~win_any)[0]
         return f'sample ({i},{j}) outside the evaluated window is {got[i, j]} (must be exactly 0)'
-    if win.any():
-        d = np.abs(got - F.astype(complex))[win]
-        if float(d.max()) > _tol(io):
-            k = np.argwhere((np.abs(got - F.astype(complex)) > _tol(io)) & win)[0]
-            return (f'sample ({k[0]},{k[1]}) = {got[k[0], k[1]]:.6g} but the Fraunhofer sum with alpha=({ar:.4g},{ac:.4g}) gives '
-                    f'{complex(F[k[0], k[1]]):.6g} (max error {float(d.max()):.3e})')
+    # the input-plane field the fields add up to must be what Wavefront.field shows (independent of the field list)
+    canvas = (np.array(inp['canvas']['re']) + 1j * np.array(inp['canvas']['im'])).reshape(inp['canvas']['shape'])
+    same_shift = len({(tuple(f['fix']), tuple(round(v, 12) for v in f['sub'])) for f in inp['fields']}) <= 1
+    if same_shift and inp['fields']:
+        f0 = inp['fields'][0]
+        sr = sum(z * th[0] / st['du'][0] * os_ for th in f0['angles']); sc = sum(-z * th[1] / st['du'][1] * os_ for th in f0['angles'])
+        Fc = fraunhofer(canvas, ar, ac, gr - np.longdouble(sr), gc - np.longdouble(sc))
+        want_c = np.where(win_any, Fc, 0)
+        if float(np.max(np.abs(want_c - want))) > _tol(io): return 'sum over the fields differs from the Fraunhofer sum of Wavefront.field of the input'
+    d = np.abs(got - want.astype(complex))
+    if win_any.any() and float(d[win_any].max()) > _tol(io):
+        k = np.argwhere((d > _tol(io)) & win_any)[0]
+        return (f'sample ({k[0]},{k[1]}) = {got[k[0], k[1]]:.6g} but the Fraunhofer sum with alpha=({ar:.4g},{ac:.4g}) gives '
+                f'{complex(want[k[0], k[1]]):.6g} (max error {float(d[win_any].max()):.3e})')
     return None
 
 # ------------------------------------------------------------------------------------------ coverage
@@ -324,7 +421,7 @@ def signature(c):
     tl = 'none' if not st['tilt_px'] else ('sub' if all(abs(v) < 1 for t in st['tilt_px'] for v in t) else 'px')
     return (f"{len(c['stages'])} {c['pupil']['shape']} seg={c['pupil']['seg'] is not None} amp0={[i for i, a in enumerate(c['pupil']['amp']) if a == 0][:6]} "
             f"os={st['os']} shape={st['shape']} prop={st['prop_shape']} mask={_mask_box(st)} tilt={tl} "
-            f"dx={'s' if c['scalar_dx'] else 'p'} du={'iso' if st['du'][0] == st['du'][1] else 'aniso'}")
+            f"wl={c.get('wl', WL):.3g} z={c.get('z', Z):g} fit={bool(c.get('fit_tilt'))} dx={'s' if c['scalar_dx'] else 'p'} du={'iso' if st['du'][0] == st['du'][1] else 'aniso'}")
 
 def nontrivial(c):
     st = c['stages'][-1]
@@ -340,6 +437,8 @@ def tags(c):
     if st['mask'] is not None: t.append('mask')
     if st['prop_shape'] is not None: t.append('prop_shape')
     if st['tilt_px']: t.append('tilt')
+    if c.get('fit_tilt'): t.append('per-field-tilt')
+    t.append(f"wl={c.get('wl', WL):.3g}"); t.append(f"z={c.get('z', Z):g}")
     if st['du'][0] != st['du'][1]: t.append('du:per-axis')
     if c['dx'][0] != c['dx'][1]: t.append('dx:per-axis')
     t.append('shape:' + ('default' if st['shape'] is None else 'int' if isinstance(st['shape'], int) else 'pair'))
